@@ -608,8 +608,19 @@ RISKY_TOKENS = ['f{', 'f{a', 'f{a:b}', '\\e[', '\\e[1m', '~', '{', '}', ':', '::
 PATTERNS = [(r'\d+', ['1', '42']), (r'[a-z]+', ['ab', 'q']), (r'f{2}', ['ff']), (r'x{1,2}:', ['x:', 'xx:']),
             (r'[~]+', ['~', '~~']), (r'\w+', ['w1']), (r'f{1}[{]', ['f{']), (r'(?i)k', ['k', 'K'])]
 CONSTS = ['c', 'null', 'f{a', 'f{x:>4}', '~', 'a:b', '{', '\\e[0m', 'two words']
+# the plain third of the grammars holds no string that the JSON loader takes for a style (listed findings D9a/D9b): there
+# the JSON path is compared to the end
+PLAIN_PATTERNS = [p for p in PATTERNS if not p[0].startswith(('f{', '\\e['))]
+PLAIN_CONSTS = [c for c in CONSTS if not c.startswith(('f{', '\\e['))]
 NAMES = ['a', 'b', 'n', 'val', 'op']
 CLASSES = ['Foo', 'Bar', 'Baz']
+# rule names: the name of a rule carries no meaning except through position (the first rule is the entry point), an upper-case
+# initial (token rule) and the reserved-word check of @name rules
+RULE_NAMES = ['start', 'document', 'expr', 'item', 'value', 'main', 'stmt', 'a_b', 'body', 'atom', 'z9', 'Tok', 'NUM', 'begin',
+              'rules', 'grammar', 'type']
+IDENT_NAMES = ['ident', 'name', 'word', 'Id']
+IDENT_ATOMS = [('pat', r'[a-z]+', ['ab', 'q', 'iffy']), ('pat', r'[a-z]+', ['ab', 'q', 'then']), ('pat', r'\w+', ['w1', 'K', 'elsewhere']),
+               ('pat', r'(?i)[a-z]+', ['ab', 'IF', 'Else']), ('pat', r'[A-Za-z_][A-Za-z0-9_]*', ['x_1', 'If', 'k']), ('meta', 'name')]
 
 
 class GrammarGen:
@@ -630,14 +641,14 @@ class GrammarGen:
         if r < 0.45:
             return self.tok()
         if r < 0.6:
-            p = rng.choice(PATTERNS if rng.random() < max(self.risky, 0.3) else PATTERNS[:2])
+            p = rng.choice((PATTERNS if self.risky else PLAIN_PATTERNS) if rng.random() < max(self.risky, 0.3) else PATTERNS[:2])
             return ('pat', p[0], p[1])
         if r < 0.75 and self.later:
             return ('call', rng.choice(self.later))
         if r < 0.8:
-            return ('const', rng.choice(CONSTS if rng.random() < max(self.risky, 0.3) else CONSTS[:2]))
+            return ('const', rng.choice((CONSTS if self.risky else PLAIN_CONSTS) if rng.random() < max(self.risky, 0.3) else CONSTS[:2]))
         if r < 0.83:
-            return ('alert', rng.choice(CONSTS[:3]), rng.randint(1, 2))
+            return ('alert', rng.choice(CONSTS[:3] if self.risky else CONSTS[:2]), rng.randint(1, 2))
         if r < 0.87:
             return ('meta', rng.choice(['int', 'uint', 'float', 'name']))
         if r < 0.9:
@@ -688,15 +699,50 @@ class GrammarGen:
 
     def grammar(self):
         rng = self.rng
+        # reserved words are drawn first: a grammar that has them mostly also has a rule that checks them
+        keywords = []
+        r = rng.random()
+        if r < 0.15:
+            keywords = ['if']
+        elif r < 0.3:
+            keywords = rng.sample(['if', 'then', 'else', 'K'], rng.randint(2, 3))
+        if keywords and rng.random() < self.risky:
+            keywords.append('f{kw')
         nrules = rng.choice([1, 1, 2, 3, 4, 5])
-        names = ['start'] + [f'r{i}' for i in range(1, nrules)]
-        if nrules > 2 and rng.random() < 0.3:
-            names[-1] = 'Tok'
+        if rng.random() < 0.45:
+            names = ['start'] + [f'r{i}' for i in range(1, nrules)]
+            if nrules > 2 and rng.random() < 0.3:
+                names[-1] = 'Tok'
+        else:
+            # the entry point is the FIRST rule whatever it is called; a rule called `start` may sit anywhere or be absent,
+            # and the order of definition is not the alphabetical one
+            names = rng.sample(RULE_NAMES, nrules)
+            if 'start' not in names and nrules > 1 and rng.random() < 0.5:
+                names[rng.randrange(1, nrules)] = 'start'
+        ident = None
+        if rng.random() < (0.65 if keywords else 0.08):
+            # an identifier rule (checked against the reserved words), defined last so that every rule may call it
+            ident = rng.choice([n for n in IDENT_NAMES if n not in names])
+            names.append(ident)
+            nrules += 1
         rules = []
         for i, name in enumerate(names):
             self.later = names[i + 1:]
             self.earlier = names[:i]
             body = self.expr(0)
+            if name == ident:
+                k = rng.random()
+                word = rng.choice(IDENT_ATOMS)
+                body = ('seq', [word]) if k < 0.7 else ('choice', [('seq', [word]), ('seq', [('tok', rng.choice(['if', 'K', 'x1']))])])
+            elif ident and (i == 0 or rng.random() < 0.3):
+                call = ('call', ident)
+                use = rng.choice([call, call, ('pclo', ('seq', [call])), ('named', 'n', call), ('namedlist', 'n', call),
+                                  ('join', ('tok', ','), ('seq', [call])), ('opt', ('seq', [call]))])
+                if body[0] == 'choice':
+                    body = ('seq', [('group', body)])
+                items = list(body[1])
+                items.insert(rng.randint(0, len(items)), use)
+                body = ('seq', items)
             if i == 0 and rng.random() < 0.7:
                 body = ('seq', [('group', body), ('eof',)]) if body[0] == 'choice' else ('seq', body[1] + [('eof',)])
             rule = {'name': name, 'exp': body, 'decorators': [], 'params': [], 'kwparams': [], 'base': None, 'style': 'bracket'}
@@ -714,10 +760,10 @@ class GrammarGen:
                 rule['style'] = 'paren'
             if rng.random() < 0.12:
                 rule['decorators'].append('nomemo')
-            if rng.random() < 0.08:
-                rule['decorators'].append('name')
-            if i > 0 and rng.random() < 0.12 and not rule['params'] and not rule['kwparams']:
-                rule['base'] = rng.choice(names[:i])
+            if name == ident or rng.random() < 0.08:
+                rule['decorators'].append(rng.choice(['name', 'name', 'name', 'isname']))
+            if i > 0 and name != ident and rng.random() < 0.12 and not rule['params'] and not rule['kwparams']:
+                rule['base'] = rng.choice([n for n in names[:i]])
             rules.append(rule)
         directives = []
         if rng.random() < 0.5:
@@ -725,7 +771,7 @@ class GrammarGen:
         # every option is drawn over its whole value space: values that switch a default ON (truthy), values that
         # switch a default OFF (False / None / '' - falsy but meaningful) and the bare form `@@name` (= True)
         if rng.random() < 0.4:
-            ws = rng.choice([r'/[ \t]+/', r'/\s+/', "' '", r'/f{0}[ ]+/' if rng.random() < max(self.risky, 0.2) else r'/[ ]+/',
+            ws = rng.choice([r'/[ \t]+/', r'/\s+/', "' '", r'/f{0}[ ]+/' if self.risky and rng.random() < max(self.risky, 0.2) else r'/[ ]+/',
                              'None', 'None', 'False', "''"])      # (`//` is left to C13: pretty() of that model raises, D8g)
             directives.append(('whitespace', ws))
         if rng.random() < 0.25:
@@ -741,17 +787,9 @@ class GrammarGen:
         if rng.random() < 0.15:
             directives.append(('eol_comments', r'/#.*?$/'))
         if rng.random() < 0.15:
-            directives.append(('namechars', rng.choice(["'-'", "'f{'" if rng.random() < max(self.risky, 0.3) else "'_'"])))
+            directives.append(('namechars', rng.choice(["'-'", "'f{'" if self.risky and rng.random() < max(self.risky, 0.3) else "'_'"])))
         if rng.random() < 0.1:
             directives.append(('left_recursion', rng.choice(['True', 'False'])))
-        keywords = []
-        r = rng.random()
-        if r < 0.15:
-            keywords = ['if']
-        elif r < 0.3:
-            keywords = rng.sample(['if', 'then', 'else', 'K'], rng.randint(2, 3))
-        if keywords and rng.random() < self.risky:
-            keywords.append('f{kw')
         return {'directives': directives, 'keywords': keywords, 'rules': rules}
 
 
@@ -863,6 +901,11 @@ def render_grammar(g) -> str:
     return '\n'.join(out)
 
 
+class NameTok(str):
+    """a piece of input that a pattern / @name element matched: where an identifier (or a reserved word) may stand"""
+    __slots__ = ()
+
+
 def sentence(g, rng, e, depth, rulemap) -> list[str]:
     k = e[0]
     if depth > 12:
@@ -870,7 +913,7 @@ def sentence(g, rng, e, depth, rulemap) -> list[str]:
     if k == 'tok':
         return [e[1]]
     if k == 'pat':
-        return [rng.choice(e[2])]
+        return [NameTok(rng.choice(e[2]))]
     if k in ('const', 'alert', 'cut', 'void', 'emptyclo', 'eof', 'la', 'nla'):
         return []
     if k == 'eol':
@@ -879,7 +922,7 @@ def sentence(g, rng, e, depth, rulemap) -> list[str]:
         r = rulemap.get(e[1])
         return sentence(g, rng, r['exp'], depth + 1, rulemap) if r else []
     if k == 'meta':
-        return [{'int': '-12', 'uint': '7', 'float': '1.5', 'name': 'nm'}[e[1]]]
+        return [NameTok('nm')] if e[1] == 'name' else [{'int': '-12', 'uint': '7', 'float': '1.5'}[e[1]]]
     if k == 'dot':
         return ['z']
     if k in ('group', 'skipgroup', 'override', 'overridelist'):
@@ -939,6 +982,15 @@ def option_sensitive(g, rng, toks):
     if want(('ignorecase',)):
         out.append(' '.join(toks).swapcase())
         out.append(' '.join(tk.capitalize() for tk in toks))
+    if g['keywords'] or rng.random() < 0.05:
+        # a reserved word (as declared, in another case, as the prefix of a longer name) where a name may stand
+        idx = [i for i, tk in enumerate(toks) if isinstance(tk, NameTok)] or [i for i, tk in enumerate(toks) if tk[-1:].isalnum()]
+        kws = [k for k in g['keywords'] if k.isalnum()] or ['if']
+        for _ in range(2 if idx else 0):
+            i = rng.choice(idx)
+            kw = rng.choice(kws)
+            kw = rng.choice([kw, kw, kw, kw.swapcase(), kw.capitalize(), kw + 'x', kw + '_'])
+            out.append(' '.join(toks[:i] + [kw] + toks[i + 1:]))
     if 'comments' in names:
         i = rng.randrange(len(toks) + 1)
         out.append(' '.join(toks[:i] + ['(* c *)'] + toks[i:]))
@@ -948,14 +1000,39 @@ def option_sensitive(g, rng, toks):
     return out
 
 
+def rule_sentence(g, rng, rule, rulemap):
+    toks = sentence(g, rng, rule['exp'], 0, rulemap)
+    if rule.get('base'):
+        toks = sentence(g, rng, rulemap[rule['base']]['exp'], 0, rulemap) + toks
+    return toks
+
+
+def entry_inputs(g, rng, n):
+    """(text, start) pairs: parses that name their entry rule (any rule of the grammar, the first one, a missing one);
+    without start= the entry point is the first rule, whatever the rules are called"""
+    rulemap = {r['name']: r for r in g['rules']}
+    out = []
+    picks = [rng.choice(g['rules']) for _ in range(n)]
+    if len(g['rules']) > 1:
+        picks.append(g['rules'][-1])
+    for rule in picks:
+        toks = rule_sentence(g, rng, rule, rulemap)
+        out.append((rng.choice([' ', ' ', '']).join(toks), rule['name']))
+    toks = rule_sentence(g, rng, g['rules'][0], rulemap)
+    out.append((' '.join(toks), rng.choice(['start', 'nosuchrule', g['rules'][-1]['name']])))
+    seen, uniq = set(), []
+    for item in out:
+        if item not in seen:
+            seen.add(item)
+            uniq.append(item)
+    return uniq
+
+
 def sample_inputs(g, rng, n):
     rulemap = {r['name']: r for r in g['rules']}
     out = ['']
     for _ in range(n):
-        toks = sentence(g, rng, g['rules'][0]['exp'], 0, rulemap)
-        base = g['rules'][0].get('base')
-        if g['rules'][0]['base']:
-            toks = sentence(g, rng, rulemap[base]['exp'], 0, rulemap) + toks
+        toks = rule_sentence(g, rng, g['rules'][0], rulemap)
         s = rng.choice([' ', ' ', '']).join(toks)
         out.append(s)
         out += option_sensitive(g, rng, toks)
@@ -1015,6 +1092,8 @@ def neutralize(g, prefixes: tuple, cls_keys: bool):
 
 # ===================================================================== oracle helpers
 def parse_outcome(t, model, text, **kw):
+    if isinstance(text, tuple):         # (text, start): a parse that names its entry rule
+        text, kw = text[0], dict(kw, start=text[1])
     try:
         with time_limit(10):
             r = model.parse(text, **kw)
@@ -1028,6 +1107,30 @@ def parse_outcome(t, model, text, **kw):
         return ('err', 'RecursionError')
     except Exception as e:   # noqa: BLE001
         return ('err', type(e).__name__)
+
+
+def _deeper(n, f):
+    return f() if n == 0 else _deeper(n - 1, f)
+
+
+DEPTH_SKIPS = [0]
+
+
+def depth_sensitive(t, ref_model, item, want, kw):
+    """Is the reference outcome of this input a matter of how deep the caller's stack happens to be?  A grammar that recurses
+    without bound (e.g. through a lookahead, unmarked as left recursive) dies where the interpreter's limit is hit, and the
+    engine turns some of those deaths into ordinary alternatives failing - the outcome then varies with the depth of the call.
+    Such an input says nothing about the reload; asked only after a mismatch."""
+    if want[:2] == ('err', 'RecursionError') or want[0] == 'timeout':
+        DEPTH_SKIPS[0] += 1
+        return True
+    if ref_model is None:
+        return False
+    for d in (0, 9, 21, 34, 55, 80):
+        if _deeper(d, lambda: parse_outcome(t, ref_model, item, **kw)) != want:
+            DEPTH_SKIPS[0] += 1
+            return True
+    return False
 
 
 def strip_ids(j):
@@ -1090,7 +1193,7 @@ def model_facts(t, m):
     }
 
 
-def diff_models(t, ref_facts, m2, ref_results, inputs, parse_kw):
+def diff_models(t, ref_facts, m2, ref_results, inputs, parse_kw, ref_model=None):
     """first difference class between the reference model and a reloaded one"""
     try:
         f2 = model_facts(t, m2)
@@ -1101,7 +1204,7 @@ def diff_models(t, ref_facts, m2, ref_results, inputs, parse_kw):
             return f'{key}-differ', f'{str(ref_facts[key])[:300]} != {str(f2[key])[:300]}'
     for text, want in zip(inputs, ref_results):
         got = parse_outcome(t, m2, text, **parse_kw)
-        if got != want:
+        if got != want and not depth_sensitive(t, ref_model, text, want, parse_kw):
             return 'parse-differs', f'input {text!r}: {want} != {got}'
     # the configuration the parses run with (Grammar.config): a setting that differs changes the language or the
     # ASTs for some input even if none of the sampled ones shows it
@@ -1156,14 +1259,14 @@ def draw_settings(rng, lo=1, hi=3):
     return {name: rng.choice(values) for name, values in rng.sample(SETTINGS_POOL, rng.randint(lo, hi))}
 
 
-def check_settings_model(chk: Check, t, g, text, gname, rng, proto, parse_kw):
+def check_settings_model(chk: Check, t, g, text, gname, rng, proto, parse_kw, blob=None):
     """Grammar(name, rules, directives=, keywords=, **settings) / config=ParserConfig(**settings): the settings live only in
     Grammar.config, which travels with the pickle (JSON and model source carry rules, directives and keywords only)"""
     settings = draw_settings(rng)
     via_config = rng.random() < 0.5
     try:
         with time_limit(20):
-            base = t.tatsu.compile(text, name=gname + 'S')      # its own rule objects (a Grammar links its rules to itself)
+            base = fresh_rules_model(t, text, gname + 'S', blob)
             if via_config:
                 ms = t.Grammar(base.name, base.rules, directives=dict(base.directives), keywords=base.keywords,
                                config=t.ParserConfig(**settings))
@@ -1176,7 +1279,7 @@ def check_settings_model(chk: Check, t, g, text, gname, rng, proto, parse_kw):
     for k in settings:
         chk.count(f'oracle.settings-models.{k}')
     g2 = dict(g, settings=settings)
-    inputs = sample_inputs(g2, rng, 3 if chk.quick else 6)
+    inputs = sample_inputs(g2, rng, 3 if chk.quick else 6) + entry_inputs(g2, rng, 1 if chk.quick else 2)
     chk.case(f'settings-model:{sorted(settings.items(), key=str)}:{text}', nontrivial=True)
     try:
         fresh_blob = pickle.dumps(ms, protocol=proto)
@@ -1190,7 +1293,7 @@ def check_settings_model(chk: Check, t, g, text, gname, rng, proto, parse_kw):
         try:
             with time_limit(30):
                 m2 = pickle.loads(blob if blob is not None else pickle.dumps(ms, protocol=proto))
-            why, detail = diff_models(t, ref, m2, ref_results, inputs, parse_kw)
+            why, detail = diff_models(t, ref, m2, ref_results, inputs, parse_kw, ms)
         except Timeout:
             why, detail = 'load-timeout', ''
         except Exception as e:   # noqa: BLE001
@@ -1204,6 +1307,111 @@ def check_settings_model(chk: Check, t, g, text, gname, rng, proto, parse_kw):
                            'detail': detail, 'pickled': when, 'protocol': proto})
             return 1
     return 0
+
+
+def fresh_rules_model(t, text, name, blob):
+    """a model of the same grammar with its own rule objects (a Grammar links its rules to itself): the copy that was
+    pickled before the first parse if there is one (cheap), else a new compile"""
+    if isinstance(blob, bytes):
+        try:
+            return pickle.loads(blob)
+        except Exception:   # noqa: BLE001
+            pass
+    return t.tatsu.compile(text, name=name)
+
+
+def check_parser_class(chk: Check, t, g, text, gname, ns, m, inputs, ref_results, parse_kw, rng, blob=None):
+    """<Name>Parser of the generated module: built plain / with settings, parse() with and without per-parse settings, must
+    behave as the model the source was generated from (same outcomes and ASTs on the same inputs, entry rules included).
+    parse() of the generated class has asmodel=True as its default (Grammar.parse: False), so asmodel is always passed."""
+    cls = ns.get(f'{gname}Parser')
+    if not isinstance(cls, type):
+        chk.violation('source:parser-class:missing', f'the generated module has no class {gname}Parser',
+                      {'oracle': 'generated <Name>Parser', 'grammar': text})
+        return 1
+    chk.count('oracle.parser-class')
+    base_kw = dict({'asmodel': False}, **parse_kw)
+    settings = draw_settings(rng, 1, 2)
+    settings.pop('start', None)
+    # every parse that names its entry rule, every rendering with a reserved word, and some of the rest
+    entry = [i for i, x in enumerate(inputs) if isinstance(x, tuple)]
+    plain = [i for i, x in enumerate(inputs) if not isinstance(x, tuple)]
+    kwds = [k.upper() for k in g['keywords'] if k.isalnum()]
+    resv = [i for i in plain if kwds and any(w.strip('_x').upper() in kwds or w.upper() in kwds for w in re.split(r'\W+', inputs[i]))]
+    rest = [i for i in plain if i not in resv]
+    n = 8 if chk.quick else 16
+    first = sorted(entry + resv[:n] + rng.sample(rest, min(n, len(rest))))
+    plans = [('Parser().parse(text)', 'plain', {}, {}, m, {i: ref_results[i] for i in first})]
+    mode = rng.choice(['ctor', 'ctor-config', 'parse', 'parse-config'])
+    picked = sorted(rng.sample(first, min(6 if chk.quick else 12, len(first))))
+    if mode.startswith('ctor'):
+        # Parser(**s) / Parser(config=ParserConfig(**s)) is the model with these settings underneath its directives
+        try:
+            with time_limit(20):
+                base = fresh_rules_model(t, text, gname + 'P', blob)
+                ms = t.Grammar(base.name, base.rules, directives=dict(base.directives), keywords=base.keywords, **settings)
+            want = {i: parse_outcome(t, ms, inputs[i], **parse_kw) for i in picked}
+            ctor = {'config': t.ParserConfig(**settings)} if mode == 'ctor-config' else settings
+            plans.append((f'Parser({"config=ParserConfig(**s)" if mode == "ctor-config" else "**s"}).parse(text)', mode, ctor, {}, ms, want))
+        except Exception as e:   # noqa: BLE001  (e.g. left_recursion=False on a left-recursive grammar)
+            chk.count(f'oracle.parser-class.settings-rejected.{type(e).__name__}')
+    else:
+        per = {'config': t.ParserConfig(**settings)} if mode == 'parse-config' else settings
+        want = {i: parse_outcome(t, m, inputs[i], **dict(parse_kw, **per)) for i in picked}
+        plans.append((f'Parser().parse(text, {"config=ParserConfig(**s)" if mode == "parse-config" else "**s"})', mode, {}, per, m, want))
+    bad = 0
+    for what, shape, ctor, per, ref_model, want in plans:
+        try:
+            with time_limit(20):
+                parser = cls(**ctor)
+        except Exception as e:   # noqa: BLE001
+            chk.violation(f'source:parser-class:init-raises-{type(e).__name__}', f'{what}: {e!r}'[:300],
+                          {'oracle': 'generated <Name>Parser', 'grammar': text, 'call': what, 'settings': repr(settings)})
+            return 1
+        start_ignored = False
+        for i, w in sorted(want.items()):
+            got = parse_outcome(t, parser, inputs[i], **dict(base_kw, **per))
+            chk.evaluations += 1
+            if got == w or depth_sensitive(t, ref_model, inputs[i], w, dict(parse_kw, **per)):
+                continue
+            if isinstance(inputs[i], tuple):
+                # the same input parsed by the model from its default entry rule: did the parser drop start= ?
+                # (asked of the parser itself, from this very frame: the model's default parse may be depth-sensitive)
+                if start_ignored or got == parse_outcome(t, parser, inputs[i][0], **dict(base_kw, **per)):
+                    if not start_ignored:
+                        chk.violation('source:parser-class:start-ignored',
+                                      f'{what.replace("text", "text, start=" + repr(inputs[i][1]), 1)} of the generated parser parses from the '
+                                      f'default entry rule: {w} != {got}'[:400],
+                                      {'oracle': 'generated <Name>Parser parses like the model it was generated from', 'grammar': text,
+                                       'call': what, 'input': inputs[i][0], 'start': inputs[i][1], 'model': w, 'parser': got})
+                    start_ignored = True
+                    bad = 1
+                    continue
+            # what the model itself answers when a complete default configuration is laid over it for this parse (the
+            # generated parse() builds ParserConfig.new(config, **settings) and passes it as config=): did the defaults of
+            # the fields that are never None (parseinfo, memoization, left_recursion, ...) displace directives / settings?
+            try:
+                laid = t.ParserConfig.new(per.get('config'), **{k: v for k, v in per.items() if k != 'config'})
+                probe = parse_outcome(t, ref_model, inputs[i], **dict(parse_kw, config=laid))
+            except Exception:   # noqa: BLE001
+                probe = None
+            if probe == got:
+                chk.violation('source:parser-class:default-config-over-directives',
+                              f'{what} of the generated parser answers as the model does under a complete default configuration '
+                              f'on {inputs[i]!r}: {w} != {got}'[:400],
+                              {'oracle': 'generated <Name>Parser parses like the model it was generated from', 'grammar': text,
+                               'call': what, 'settings': repr(settings) if (ctor or per) else None, 'input': inputs[i],
+                               'model': w, 'parser': got})
+                bad = 1
+                continue
+            kwsens = bool(g['keywords']) and 'KeywordError' in (str(got) + str(w))
+            chk.violation(f'source:parser-class:{shape}:parse-differs' + (':reserved-word' if kwsens else ''),
+                          f'{what} of the generated parser differs from the model on {inputs[i]!r}: {w} != {got}'[:400],
+                          {'oracle': 'generated <Name>Parser parses like the model it was generated from', 'grammar': text,
+                           'call': what, 'settings': repr(settings) if (ctor or per) else None, 'input': inputs[i],
+                           'model': w, 'parser': got})
+            return 1
+    return bad
 
 
 def load_json_path(t, m, variant):
@@ -1222,7 +1430,7 @@ def load_source_path(t, src_text, name):
 
 def run_oracle(chk: Check, t, mr: ModelRun, bkeys_sx, reg_sx):
     rng = chk.rng
-    ngr = 90 if chk.quick else 900
+    ngr = 84 if chk.quick else 900
     j1_reqs, j1_cases = [], []
     j2_reqs, j2_cases = [], []
     nbad = {'json': 0, 'pickle': 0, 'source': 0, 'dump': 0}
@@ -1246,7 +1454,11 @@ def run_oracle(chk: Check, t, mr: ModelRun, bkeys_sx, reg_sx):
         chk.case('grammar:' + text, nontrivial=len(g['rules']) > 1 or bool(feats))
         chk.count('oracle.grammars')
         chk.count('oracle.grammars.risky' if feats else 'oracle.grammars.plain')
-        inputs = sample_inputs(g, rng, 4 if chk.quick else 8)
+        inputs = sample_inputs(g, rng, 4 if chk.quick else 8) + entry_inputs(g, rng, 2 if chk.quick else 4)
+        if any(r['name'] == 'start' for r in g['rules'][1:]):
+            chk.count('oracle.grammars.start-rule-not-first')
+        if g['keywords'] and any(r['decorators'] and set(r['decorators']) & {'name', 'isname'} for r in g['rules']):
+            chk.count('oracle.grammars.keywords-and-name-rule')
         parse_kw = {}
         if it % 4 == 1:
             parse_kw = {'asmodel': True}
@@ -1268,7 +1480,7 @@ def run_oracle(chk: Check, t, mr: ModelRun, bkeys_sx, reg_sx):
                           {'oracle': 'model.asjson() / pretty()', 'grammar': text})
             continue
 
-        def check_path(path, loader, ref_facts, build_variant):
+        def check_path(path, loader, ref_facts, build_variant, ref_model=m):
             """returns (diffclass, detail) of the reload through one serialization path for grammar text"""
             try:
                 with time_limit(30):
@@ -1277,7 +1489,7 @@ def run_oracle(chk: Check, t, mr: ModelRun, bkeys_sx, reg_sx):
                 return 'load-timeout', ''
             except Exception as e:   # noqa: BLE001
                 return f'load-raises-{type(e).__name__}', str(e)[:300]
-            return diff_models(t, ref_facts, m2, ref_results, inputs, parse_kw)
+            return diff_models(t, ref_facts, m2, ref_results, inputs, parse_kw, ref_model)
 
         # ---- JSON
         variant = it % 3
@@ -1304,21 +1516,30 @@ def run_oracle(chk: Check, t, mr: ModelRun, bkeys_sx, reg_sx):
                 break
         # ---- pickle of a model whose configuration was given to the constructor (not written in the grammar text)
         if it % 2 == 1:
-            nbad['pickle'] += check_settings_model(chk, t, g, text, gname, rng, proto, parse_kw)
+            nbad['pickle'] += check_settings_model(chk, t, g, text, gname, rng, proto, parse_kw, fresh_blob)
         # ---- model source (emits the optimized model)
+        src_ns: dict = {}
         try:
             mo = m.optimized()
             ref_o = model_facts(t, mo)
             src = t.tatsu.api.to_parsermodel_sourcecode(text, name=gname)
-            why, detail = check_path('source', lambda: load_source_path(t, src, gname)[0], ref_o, 0)
+
+            def load_src():
+                gm, ns = load_source_path(t, src, gname)
+                src_ns.update(ns)
+                return gm
+            why, detail = check_path('source', load_src, ref_o, 0, mo)
         except Exception as e:   # noqa: BLE001
             why, detail = f'generate-raises-{type(e).__name__}', str(e)[:300]
         if why:
             nbad['source'] += 1
-            sig, small_text = attribute_source(t, g, gname, why)
+            sig, small_text = attribute_source(t, g, gname, why, m.optimized())
             chk.violation(sig, f'grammar reloaded from generated model source differs ({why}): {detail[:200]}',
                           {'oracle': 'exec(to_parsermodel_sourcecode(grammar))', 'grammar': small_text,
                            'difference': why, 'detail': detail})
+        # ---- the parser class of the generated module (what a user of the generated file calls)
+        if src_ns:
+            nbad['source'] += check_parser_class(chk, t, g, text, gname, src_ns, m, inputs, ref_results, parse_kw, rng, fresh_blob)
         # ---- every parse result converts and dumps; J1 on the results and on the model itself
         for s in inputs[:3]:
             for kw in ({}, {'asmodel': True}, {'parseinfo': True, 'asmodel': True}):
@@ -1351,6 +1572,7 @@ def run_oracle(chk: Check, t, mr: ModelRun, bkeys_sx, reg_sx):
         except Unsupported as e:
             chk.count(f'J2.unsupported.{e}')
     chk.count('oracle.compiled', compiled)
+    chk.count('oracle.mismatch-on-depth-sensitive-input-skipped', DEPTH_SKIPS[0])
     def unlisted(prefix):
         return [v for v in chk.violations if v['signature'].startswith(prefix)]
     chk.count('oracle.reload-differs.json', nbad['json'])
@@ -1361,6 +1583,8 @@ def run_oracle(chk: Check, t, mr: ModelRun, bkeys_sx, reg_sx):
     chk.obligation('oracle:pickle reload yields the same rules/directives/keywords and parses', 'oracle', not unlisted('pickle:'))
     chk.obligation('oracle:model-source reload yields the same rules/directives/keywords and parses (outside listed findings)',
                    'oracle', not unlisted('source:'))
+    chk.obligation('oracle:the generated <Name>Parser class (plain, with constructor / per-parse settings) parses like the model',
+                   'oracle', not unlisted('source:parser-class'))
     chk.obligation('oracle:json.dumps(asjson(parse result)) succeeds', 'oracle', not unlisted('oracle:result-not-dumpable'))
     # J1 on parse results / models
     replies = mr.ask(j1_reqs)
@@ -1511,6 +1735,8 @@ def attribute_json(t, g, gname, variant, why):
         return [f'json:other:{why}'], text
     if fails(neutralize(g, ('f{', '\\e['), True), 'n') is not False:
         return [f'json:other:{why}'], text
+    if len(feats) == 1:
+        return ['json:' + next(iter(feats))], text     # fails with it, does not fail without it
     needed = []
     for feat, fix in (('string-startswith-f{', (('f{',), False)), ('string-startswith-\\e[', (('\\e[',), False)),
                       ('dict-key-__class__', ((), True))):
@@ -1525,15 +1751,13 @@ def attribute_json(t, g, gname, variant, why):
     return needed, text
 
 
-def attribute_source(t, g, gname, why):
+def attribute_source(t, g, gname, why, m=None):
     text = render_grammar(g)
-    one_rule = len(g['rules']) == 1
-    one_kw = len(g['keywords']) == 1
-    m = None
-    try:
-        m = t.tatsu.compile(text, name=gname).optimized()
-    except Exception:   # noqa: BLE001
-        pass
+    if m is None:
+        try:
+            m = t.tatsu.compile(text, name=gname).optimized()
+        except Exception:   # noqa: BLE001
+            pass
     one_tuple = False
     sublist = False
     if m is not None:
@@ -1700,7 +1924,15 @@ def main():
                 'protocols 2-5; half of the grammars are rebuilt as Grammar(name, rules, directives=, keywords=, **settings / '
                 'config=ParserConfig(**settings)) with 1-3 random settings and pickled; 400 random ParserConfig objects (built by '
                 'init / override / hard_override / setattr, values truthy, falsy, module, class, instance) are pickled and compared '
-                'field by field. Non-trivial: more than one node / non-empty container / more than one '
+                'field by field. Rule names: half of the grammars are start, r1, r2..; the others draw their names from a pool in '
+                'random definition order (a rule called start at a non-first position or absent; the first rule is the entry point); '
+                'every grammar is also parsed with start=<random rule / last rule / missing rule> on all reload paths. Reserved '
+                'words: a grammar with @@keyword mostly has an @name / @isname identifier rule called from the first rule, and its '
+                'sentences are also rendered with a keyword (as declared, other case, prefix of a longer name) where a pattern or '
+                '@name matched. The <Name>Parser class of the generated module is instantiated (plain, with constructor settings, '
+                'with config=) and its parse() (plain, with per-parse settings / config=) is compared with the model on entry-rule, '
+                'reserved-word and sampled inputs. Mismatches on inputs whose reference outcome depends on the depth of the '
+                'calling stack (unbounded recursion) are skipped and counted. Non-trivial: more than one node / non-empty container / more than one '
                 'rule or a risky string; distinct by content hash.')
     chk.trusted += ['Python json, pickle, re; the TatSu bootstrap parser and parse engine (used to build models from grammar text and to '
                     'parse the sampled inputs on both sides of each comparison)',
